@@ -345,3 +345,20 @@ func (p *Policy) OpenAsym(frame []byte, receiverKey *rsa.PrivateKey, senderPub *
 	binary.LittleEndian.PutUint32(out[4:], uint32(len(out)))
 	return out, nil
 }
+
+// SignAsym signs data with the policy's asymmetric signature algorithm.
+func (p *Policy) SignAsym(priv *rsa.PrivateKey, data []byte) ([]byte, error) { return p.asymSign(priv, data) }
+
+// VerifyAsym verifies an asymmetric signature.
+func (p *Policy) VerifyAsym(pub *rsa.PublicKey, data, sig []byte) error { return p.asymVerify(pub, data, sig) }
+
+// AsymSignatureURI is the algorithm URI carried in SignatureData.
+func (p *Policy) AsymSignatureURI() string {
+	switch p.asymSig {
+	case "pkcs15-sha1":
+		return "http://www.w3.org/2000/09/xmldsig#rsa-sha1"
+	case "pkcs15-sha256":
+		return "http://www.w3.org/2001/04/xmldsig-more#rsa-sha256"
+	}
+	return "http://opcfoundation.org/UA/security/rsa-pss-sha2-256"
+}
